@@ -6,10 +6,21 @@
 package tl
 
 import (
+	"crypto/rand"
 	"math/big"
 
 	"github.com/xelaj/go-dry"
 )
+
+// secureRandomBytes returns random bytes from operating system's cryptographic random source. nonces are
+// secrets of key exchange, so they MUST NOT be produced by math/rand (which dry.RandomBytes uses)
+func secureRandomBytes(size int) []byte {
+	b := make([]byte, size)
+	if _, err := rand.Read(b); err != nil {
+		panic(err) // system random source is broken, can't continue
+	}
+	return b
+}
 
 // Int128 is alias-like type for fixed size of big int (1024 bit value). It using only for tl objects encoding
 // cause native big.Int isn't supported for en(de)coding
@@ -25,7 +36,7 @@ func NewInt128() *Int128 {
 // NewInt128 creates int128 with random value
 func RandomInt128() *Int128 {
 	i := &Int128{Int: big.NewInt(0)}
-	i.SetBytes(dry.RandomBytes(Int128Len))
+	i.SetBytes(secureRandomBytes(Int128Len))
 	return i
 }
 
@@ -66,7 +77,7 @@ func NewInt256() *Int256 {
 // NewInt256 creates int256 with random value
 func RandomInt256() *Int256 {
 	i := &Int256{big.NewInt(0)}
-	i.SetBytes(dry.RandomBytes(Int256Len))
+	i.SetBytes(secureRandomBytes(Int256Len))
 	return i
 }
 
